@@ -31,8 +31,8 @@ structure TablesOK (T : Tables) : Prop where
 
 /-- Extra facts for the ASCII option and for grammaticality. -/
 structure TablesAscii (T : Tables) : Prop where
-  iri_ascii : ∀ c, lookup (T.iriEsc true) 0 c = 0 → c < 0x80
-  lit_ascii : ∀ c, lookup (T.litEsc true) 0 c = 0 → c < 0x80
+  iri_ascii : ∀ c, c ≤ 0x10FFFF → lookup (T.iriEsc true) 0 c = 0 → c < 0x80
+  lit_ascii : ∀ c, c ≤ 0x10FFFF → lookup (T.litEsc true) 0 c = 0 → c < 0x80
   echar_ascii : ∀ c, lookup T.echar 0 c < 0x80
   /-- no escape mode outside the ones the writers handle (any other mode writes the rune raw). -/
   iri_mode_a : ∀ c, lookup (T.iriEsc true) 0 c ≤ 2
@@ -63,6 +63,19 @@ def langPrim : List Nat → Bool → Bool
 def langOK (t : List Nat) : Bool := langPrim t false
 
 def Scalars (s : List Nat) : Prop := ∀ c ∈ s, IsScalar c
+
+/-- Every rune is a Go-representable code point (`≤ unicode.MaxRune`); weaker than `Scalars`.
+    Needed by `ascii_output`: the escape tables are only regenerated over `0 … 0x10FFFF`, outside of
+    which `lookup` falls back to mode 0 (= written raw). -/
+def RunesInRange (s : List Nat) : Prop := ∀ c ∈ s, c ≤ 0x10FFFF
+
+def TermInRange {β : Type} : Term β → Prop
+  | .iri v => RunesInRange v
+  | .bnode _ => True
+  | .lit l d _ => RunesInRange l ∧ RunesInRange d
+
+def QuadInRange {β : Type} (q : Quad β) : Prop :=
+  TermInRange q.s ∧ TermInRange q.p ∧ TermInRange q.o ∧ ∀ g, q.g = some g → TermInRange g
 
 /-- IRI the N-Quads decoder accepts: scalar values only, passes the decoder's `url.Parse`/`IsAbs`. -/
 def WFIri (urlOk : List Nat → Bool) (v : List Nat) : Prop := Scalars v ∧ urlOk v = true
